@@ -71,3 +71,42 @@ package loader
 //@   loop 1 invariant forall a string, d string :: seen1(a) && a in p.Processes && d in p.Processes[a].DependsOn ==> d in p.Processes
 //@   loop 2 invariant forall a string, d string :: seen1(a) && a != curkey1() && a in p.Processes && d in p.Processes[a].DependsOn ==> d in p.Processes
 //@   loop 2 invariant forall d string :: seen2(d) && curkey1() in p.Processes && d in p.Processes[curkey1()].DependsOn ==> d in p.Processes
+
+// C15: files are merged in the order given: every later project is merged INTO the first one (the accumulated
+// base), one after the other; a failed merge stops the sequence and is reported.
+//@ ghost merges() int
+//@ ghost mergeBaseAt(int) *types.Project
+//@ ghost mergeOverrideAt(int) *types.Project
+//@ func mergeProjects
+//@   flag trusted
+//@   ensures merges() == old(merges()) + 1 && mergeBaseAt(old(merges())) == base && mergeOverrideAt(old(merges())) == override
+//@   assigns everything_but merges[*], mergeBaseAt[*], mergeOverrideAt[*], loader.LoaderOptions.projects[*], heap(Elem.ptr.types.Project)
+//@   sets merges() := merges() + 1
+//@   sets mergeBaseAt(merges()) := base
+//@   sets mergeOverrideAt(merges()) := override
+//@ func merge
+//@   requires opts != nil && len(opts.projects) >= 1
+//@   ensures result-is-first: result0 == old(opts.projects[0])
+//@   ensures single: len(opts.projects) == 1 ==> merges() == old(merges()) && result1 == nil
+//@   ensures all-in-order: result1 == nil ==> merges() == old(merges()) + len(opts.projects) - 1 &&
+//@        (forall i int {mergeOverrideAt(old(merges()) + i)} :: 0 <= i && i < len(opts.projects) - 1 ==> mergeBaseAt(old(merges()) + i) == old(opts.projects[0]) && mergeOverrideAt(old(merges()) + i) == old(opts.projects[i + 1]))
+//@   loop 1 invariant idx >= -1 && idx < len(opts.projects) - 1 && merges() == old(merges()) + idx + 1 && opts.projects == old(opts.projects) && len(opts.projects) >= 2
+//@   loop 1 invariant forall i int {mergeOverrideAt(old(merges()) + i)} :: 0 <= i && i <= idx ==> mergeBaseAt(old(merges()) + i) == old(opts.projects[0]) && mergeOverrideAt(old(merges()) + i) == old(opts.projects[i + 1])
+//@   loop 1 invariant forall j int {opts.projects[j]} :: 0 <= j && j < len(opts.projects) ==> opts.projects[j] == old(opts.projects[j])
+
+// C15: an extended (base) project is placed BEFORE the project that extends it, recursively for chains: everything
+// that was in the list at or after `index` - in particular what the caller appends afterwards follows - stays behind
+// the whole inserted chain, and nothing before `index` moves.
+//@ func loadProjectFromFile
+//@   flag trusted
+//@   ensures result1 == nil ==> result0 != nil && fresh(result0)
+//@   assigns nothing
+//@ func copyWorkingDirToProcesses
+//@   flag trusted
+//@   assigns types.ProcessConfig.WorkingDir[*], heap(MapVal.Str.types.ProcessConfig)
+//@ func loadExtendProject
+//@   requires p != nil && opts != nil && 0 <= index && index <= len(opts.projects) && index <= len(opts.FileNames)
+//@   ensures no-extends: old(p.ExtendsProject) == "" ==> result == nil && opts.projects == old(opts.projects)
+//@   ensures grows: result == nil ==> len(opts.projects) >= old(len(opts.projects))
+//@   ensures prefix-kept: result == nil ==> (forall j int {opts.projects[j]} :: 0 <= j && j < index ==> opts.projects[j] == old(opts.projects[j]))
+//@   ensures suffix-stays-behind: result == nil ==> (forall j int {old(opts.projects[j])} :: index <= j && j < old(len(opts.projects)) ==> opts.projects[shiftIdx(j, len(opts.projects) - old(len(opts.projects)))] == old(opts.projects[j]))
